@@ -8,6 +8,9 @@ K-b the real WithMaxAttempts against the model: number of calls of fn, nil / err
 O-a the monitor of the property (Lean: monRun, strict form) on the events of the real runs.
 O-b the WithMaxAttempts clause (Lean: wmaSpec) on what the real calls did.
 
+The model follows the repaired code (fix: 7aa7712 NextCh, 00a346b n = 1, 2a10cc6 nil without a call);
+the one remaining contradiction (an attempt after a stop when a Reset was pending) is a known finding.
+
 Where "first attempt immediately" / "at least once" meets "stops when told" (the stop precedes the
 very first attempt) the statement decides neither way; both behaviours are accepted there.
 """
@@ -126,7 +129,7 @@ CORPUS = [
     {"Opts": {"InitialNs": 5 * MS, "MaxNs": 20 * MS, "MultNum": 2, "MultDen": 1, "RandNum": 3, "RandDen": 20, "MaxRetries": 3},
      "UseCloser": False, "StartClosed": False, "StartCancelled": False, "flavour": "next",
      "Ops": [{"K": k, "Us": 0} for k in ["x", "n", "n"]]},
-    # NextCh with a multiplier below 1: the first wait uses Initial*Multiplier
+    # NextCh with a multiplier below 1 (before fix 7aa7712 its first wait used Initial*Multiplier)
     {"Opts": {"InitialNs": 40 * MS, "MaxNs": 0, "MultNum": 1, "MultDen": 4, "RandNum": 3, "RandDen": 20, "MaxRetries": 0},
      "UseCloser": False, "StartClosed": False, "StartCancelled": False, "flavour": "nextch",
      "Ops": [{"K": k, "Us": 0} for k in ["h", "h", "h"]]},
@@ -255,6 +258,54 @@ def wma_text(c):
                                            ("%s after call %d" % (c["StopKind"], c["StopAfterCalls"])) if c["StopAfterCalls"] else "cap")
 
 
+def eval_script(model, sc, res):
+    """one real run against model and oracle -> dict(bad, evs, oracle, lenient, tags, toks, waits)."""
+    toks = model_run(model, sc)
+    ev = {"toks": toks, "bad": None, "evs": None, "oracle": "ok", "lenient": "ok", "tags": None, "waits": 0, "inconclusive": False}
+    if len(res) != len(toks):
+        ev["bad"] = "lengths: impl %d ops, model %d" % (len(res), len(toks))
+        return ev
+    evs = events_of(sc, res, stop_lbs(model, sc))
+    if evs is None:
+        ev["inconclusive"] = True
+        return ev
+    ev["evs"] = evs
+    for j, (r, t) in enumerate(zip(res, toks)):
+        if r["r"] != tok_kind(t):
+            ev["bad"] = "op %d (%s): impl %s, model %s" % (j, sc["Ops"][j]["K"], r["r"], t)
+            break
+        lb = tok_lb(t)
+        if lb and r["gap"] < lb * (1 - 1e-6) - 2:
+            ev["bad"] = "op %d (%s): measured wait %d ns is shorter than the model's shortest delay %d ns" % (j, sc["Ops"][j]["K"], r["gap"], lb)
+            break
+        if lb:
+            ev["waits"] += 1
+    st = "1" if (sc["StartClosed"] or sc["StartCancelled"]) else "0"
+    o = model.ask("C17 oracle-trace %s strict %s %s %s" % (opt_tokens(sc["Opts"]), st, SLACK, ",".join(evs) or "-"))
+    ev["oracle"] = o
+    if o != "ok":
+        ol = model.ask("C17 oracle-trace %s lenient %s %s %s" % (opt_tokens(sc["Opts"]), st, SLACK, ",".join(evs) or "-"))
+        ev["lenient"] = ol
+        clause = (o or "").split("clause=")[-1].split(" ")[0]
+        if sc["flavour"] in ("nextch", "mixed"):
+            ev["tags"] = {"fn": "NextCh", "clause": clause}
+        elif ol == "ok":
+            ev["tags"] = {"fn": "Next", "clause": "afterStop", "pendingReset": True}
+        else:
+            ev["tags"] = {"fn": "Next", "clause": clause}
+    return ev
+
+
+def select_race_suspect(ev):
+    """A Next entered after the stop came back true: either a defect (then it does so every time)
+    or Go's select found the timer ready as well because the goroutine was held up between
+    time.After and the select for longer than the delay (the assumption behind `next`'s halted
+    branch; happens about once in 10^4 scripts with millisecond delays under load)."""
+    if ev["bad"] and "impl t, model f" in ev["bad"]:
+        return True
+    return bool(ev["tags"]) and ev["tags"].get("clause") == "afterStop" and not ev["tags"].get("pendingReset")
+
+
 def check_scripts(rep, impl, model, scripts, parallel):
     """returns (kdis, ofail, inconclusive)"""
     kdis, ofail, inconcl = [], [], 0
@@ -266,8 +317,7 @@ def check_scripts(rep, impl, model, scripts, parallel):
         if results is None:
             kdis.append({"harness": out})
             continue
-        for sc, res in zip(chunk, results):
-            toks = model_run(model, sc)
+        for sc, w, res in zip(chunk, wire, results):
             txt = script_text(sc)
             rep.case(txt)
             classify_opts(rep, sc["Opts"])
@@ -280,44 +330,31 @@ def check_scripts(rep, impl, model, scripts, parallel):
                 rep.count("stop-between-calls")
             if any(op["K"] in ("nc", "nx") for op in sc["Ops"]):
                 rep.count("stop-during-wait")
-            bad = None
-            if len(res) != len(toks):
-                bad = "lengths: impl %d ops, model %d" % (len(res), len(toks))
-            evs = events_of(sc, res, stop_lbs(model, sc)) if bad is None else None
-            if bad is None and evs is None:
+            ev = eval_script(model, sc, res)
+            if select_race_suspect(ev):
+                # a defect reproduces; a scheduling race does not
+                again = []
+                for _ in range(3):
+                    o2 = impl.call("retryScripts", Scripts=[w], Parallel=1)
+                    r2 = (o2.get("res") or [[]])[0] if isinstance(o2, dict) else []
+                    again.append(select_race_suspect(eval_script(model, sc, r2)))
+                if not all(again):
+                    rep.count("select-race-not-reproduced (timer ready at a select entered after the stop)")
+                    inconcl += 1
+                    continue
+            if ev["inconclusive"]:
                 inconcl += 1
                 rep.count("inconclusive-stop-missed-its-wait")
                 continue
-            if bad is None:
-                for j, (r, t) in enumerate(zip(res, toks)):
-                    if r["r"] != tok_kind(t):
-                        bad = "op %d (%s): impl %s, model %s" % (j, sc["Ops"][j]["K"], r["r"], t)
-                        break
-                    lb = tok_lb(t)
-                    if lb and r["gap"] < lb * (1 - 1e-6) - 2:
-                        bad = "op %d (%s): measured wait %d ns is shorter than the model's shortest delay %d ns" % (j, sc["Ops"][j]["K"], r["gap"], lb)
-                        break
-                    if lb:
-                        rep.count("waits-measured")
-            if bad:
-                kdis.append({"script": txt, "impl": [(r["r"], r["gap"]) for r in res], "model": toks, "why": bad})
-            if evs is None or sc["flavour"] == "mixed":
+            rep.count("waits-measured", ev["waits"])
+            if ev["bad"]:
+                kdis.append({"script": txt, "impl": [(r["r"], r["gap"]) for r in res], "model": ev["toks"], "why": ev["bad"]})
+            if ev["evs"] is None:
                 continue
-            st = "1" if (sc["StartClosed"] or sc["StartCancelled"]) else "0"
-            o = model.ask("C17 oracle-trace %s strict %s %s %s" % (opt_tokens(sc["Opts"]), st, SLACK, ",".join(evs) or "-"))
             rep.count("oracle-traces")
-            if o != "ok":
-                ol = model.ask("C17 oracle-trace %s lenient %s %s %s" % (opt_tokens(sc["Opts"]), st, SLACK, ",".join(evs) or "-"))
-                clause = (o or "").split("clause=")[-1].split(" ")[0]
-                if sc["flavour"] == "nextch":
-                    tags = {"fn": "NextCh", "clause": clause}
-                elif ol == "ok":
-                    tags = {"fn": "Next", "clause": "afterStop", "pendingReset": True}
-                else:
-                    tags = {"fn": "Next", "clause": clause}
-                ofail.append({"script": txt, "wire": {k: v for k, v in sc.items() if k != "flavour"}, "events": evs,
-                              "oracle": o, "lenient": ol, "tags": tags,
-                              "impl": [(r["r"], r["gap"]) for r in res]})
+            if ev["oracle"] != "ok":
+                ofail.append({"script": txt, "wire": w, "events": ev["evs"], "oracle": ev["oracle"], "lenient": ev["lenient"],
+                              "tags": ev["tags"], "impl": [(r["r"], r["gap"]) for r in res]})
     return kdis, ofail, inconcl
 
 
@@ -340,6 +377,16 @@ def check_wma(rep, impl, model, cases, parallel):
             fl = "%d%d" % (1 if c["StartClosed"] else 0, 1 if c["StartCancelled"] else 0)
             m = model.ask("C17 wma %s %d %s %s" % (opt_tokens(c["Opts"]), c["N"], fl, ",".join(wma_env(c))))
             got = "%d %s %d" % (r["calls"], "nil" if r["nil"] else "err", 1 if r["succeeded"] else 0)
+            if got != m and not (r.get("hang") or r.get("panic")) and r["calls"] == int(m.split(" ")[0]) + 1:
+                # one call more than the model: defect, or the same select race as in the loops
+                again = []
+                for _ in range(3):
+                    o2 = impl.call("retryWMA", Cases=[c], Parallel=1)
+                    r2 = (o2.get("res") or [{}])[0] if isinstance(o2, dict) else {}
+                    again.append("%s %s %d" % (r2.get("calls"), "nil" if r2.get("nil") else "err", 1 if r2.get("succeeded") else 0) != m)
+                if not all(again):
+                    rep.count("select-race-not-reproduced (timer ready at a select entered after the stop)")
+                    continue
             if r.get("hang") or r.get("panic") or got != m:
                 kdis.append({"case": txt, "impl": r, "model": m})
             if r.get("hang") or c["N"] <= 0:
@@ -365,7 +412,7 @@ def run(tier, seed):
     rep = Report(PROP, tier, seed, "proof")
     rep.assumptions = [
         "floating point (float64 products, math.Pow, rand.Float64) is idealised as exact rational arithmetic with a draw u in [0,1); the check compares with relative tolerance 1e-6",
-        "Go's select: a closer / context that has already fired wins against a timer that is not yet due (model: `next` returns halted when stopped); needs a positive delay, theorem delay_pos",
+        "Go's select: a closer / context that has already fired wins against a timer that is not yet due (model: `next` returns halted when stopped); needs a positive delay (theorem delay_pos) that is longer than the time the goroutine takes from time.After to the select — when it is held up for longer, select may pick the timer; such a run is recognised by not reproducing and is counted, not judged",
         "time.After(d) never delivers before d; measured gaps are used only as lower bounds, so upper edges of the band (MaxBackoff cap, +r) are shown on the model only",
         "NextCh leaves watching the closer / context to its caller; the stop clause is checked for Next only",
         "option sets with non-negative back-offs, multiplier and randomisation factor; r <= 1 for the whole-nanosecond statements"]
@@ -452,7 +499,7 @@ def replay(path):
     for f in d.get("replay", {}).get("failing", []):
         if "script" in f:
             sc = dict(f["wire"])
-            sc["flavour"] = "nextch" if f["tags"]["fn"] == "NextCh" else "next"
+            sc["flavour"] = "nextch" if f["tags"]["fn"] == "NextCh" else "next"   # NextCh / mixed scripts have no stops
             rep = Report(PROP, "quick", 0, "proof")
             k, o, _ = check_scripts(rep, impl, model, [sc], 1)
             print(f["script"], "->", [x["oracle"] for x in o] or "ok", "K:", [x["why"] for x in k] or "agrees")
